@@ -836,6 +836,12 @@ func (s *session) closeLocked() error {
 }
 
 func (s *session) readDisconnected(oldConn net.Conn, err error) {
+	// The connection this reader served has already been replaced by a redial
+	// that a writer started (the writer met the loss first): the session lives
+	// on with a new reader; its calls, its socket and its status are not ours.
+	if oldConn != nil && oldConn != s.getConn() {
+		return
+	}
 	var status int32
 	for {
 		status = s.getStatus()
@@ -881,12 +887,26 @@ func (s *session) readDisconnected(oldConn net.Conn, err error) {
 		return
 	}
 
-	s.socket.Close()
+	s.closeLostConn(oldConn)
 	if !s.redialForClient(oldConn) {
 		s.changeStatus(statusPassiveClosed)
 		s.notifyClosed()
 		s.peer.pluginContainer.postDisconnect(s)
 	}
+}
+
+// closeLostConn closes the socket after its connection was lost, unless a
+// redial started by a writer has meanwhile given the socket a new connection.
+func (s *session) closeLostConn(oldConn net.Conn) {
+	if s.redialForClientLocked == nil {
+		s.socket.Close()
+		return
+	}
+	s.lock.Lock()
+	if oldConn == s.getConn() {
+		s.socket.Close()
+	}
+	s.lock.Unlock()
 }
 
 func (s *session) redialForClient(oldConn net.Conn) bool {
